@@ -69,6 +69,10 @@ var propDescs = map[string]propDesc{
 		Decides:    "the reconciler's table writes are CAS-on-reconciled-revision or guarded inserts, never on un-cloned objects, never deletes; prune is gated on initialization and given the full table; StatusSet is copy-on-write (RECONCILER-WRITES, PRUNE-GATE, IMMUT).",
 		NotDecided: "that the guards compare the right values for every interleaving.",
 	},
+	"C16": {
+		Decides:    "the bookkeeping the pacing contract rests on: the backoff duration is capped by the maximum; an object's retry state (attempt counter) is forgotten when a new version arrives or an operation succeeds, so the backoff starts over; every failure refreshes the queued item and re-positions it in both heaps; the retry low watermark is the oldest failed item's revision and 0 only when none remains; WaitUntilReconciled's progress is published from the revisions incremental.run actually processed (RETRY-BOOK).",
+		NotDecided: "every clause about durations: never sooner than the minimum backoff, waits that do not shrink, retry within maximum plus one round - run-time quantities with no static handle.",
+	},
 	"C17": {
 		Decides:    "the singleton pair is never mutated in place; migration-before-insert ordering; no use of a published transaction (IMMUT, SINGLETON-FIRST, TXN-RETIRE).",
 		NotDecided: "model exactness, representation switches, JSON/YAML round trip.",
